@@ -59,8 +59,7 @@ def lemma_vcs(reg, lm):
     vs, st, hyps, body = lemma_formula(eng, reg, lm)
     prior = []
     for other in lm.use_lemmas:
-        ovs, _st, ohyps, obody = lemma_formula(eng, reg, reg.lemmas[other])
-        prior.append(z3.ForAll(ovs, z3.Implies(z3.And(*ohyps + [z3.BoolVal(True)]), obody)))
+        prior.append(lemma_as_axiom(reg, other))
     if lm.induction is None:
         vc = sx.VC("lemma.%s" % lm.name, "lemma", prior + hyps, body, "lemma::" + lm.name, note=lm.statement)
         vc.trivial = False
@@ -92,15 +91,55 @@ def _dummy_fn():
 def lemma_as_axiom(reg, name):
     lm = reg.lemmas[name]
     eng = sx.Engine("lemma::" + lm.name, _dummy_fn(), {}, None, reg, reg.specs)
-    vs, _st, hyps, body = lemma_formula(eng, reg, lm)
+    vs, st, hyps, body = lemma_formula(eng, reg, lm)
+    if lm.induction is not None:        # proved for induction variable >= base only
+        hyps = hyps + [st.env[lm.induction] >= sx.to_z3(eng.evc(lm.base, st))]
     return z3.ForAll(vs, z3.Implies(z3.And(*hyps + [z3.BoolVal(True)]), body))
 
 
-def gen_function_vcs(reg, c):
+def gen_function_vcs(reg, c, small_scope=None):
     fndef, imports, sha, line = extract.load(REPO, c.path, c.qualname)
-    eng = sx.Engine(c.key, fndef, imports, c, reg, reg.specs)
+    eng = sx.Engine(c.key, fndef, imports, c, reg, reg.specs, small_scope=small_scope)
     vcs = eng.run_function()
     return eng, vcs, sha
+
+
+SMALL_K = 3
+
+
+def refute_small_scope(reg, c, names):
+    """Second pass for obligations the solver left open: bounded quantifiers expanded over [-1, K], recursive specs
+    unfolded completely, no quantified axiom: a `sat` answer is a genuine counter-model of the obligation."""
+    try:
+        eng, vcs, _sha = gen_function_vcs(reg, c, small_scope=SMALL_K)
+    except (sx.Unsupported, sx.ContractError, LookupError, SyntaxError):
+        return {}
+    readback = _readback(eng)
+    jobs, meta = [], []
+    for vc in vcs:
+        if vc.name not in names or getattr(vc, "trivial", False):
+            continue
+        hyps = list(vc.hyps) + list(eng.scope_constraints)
+        hyps += solve.spec_closure(eng, reg.specs, hyps + [vc.goal], fuel=SMALL_K + 4, quantified=False)
+        jobs.append((solve.to_smt2(hyps, vc.goal), Z3_MS, readback, 0))
+        meta.append(vc)
+    res = solve.discharge(jobs)
+    out = {}
+    for vc, r in zip(meta, res):
+        if r["result"] == "sat" and vc.name not in out:
+            out[vc.name] = {"model": r.get("model"), "line": vc.line}
+    return out
+
+
+def _readback(eng):
+    readback = {}
+    for p, (k_, base_or_z, ty) in eng.inputs.items():
+        if k_ == "scalar":
+            readback[p] = ("scalar", base_or_z.decl().name())
+        else:
+            ho = eng.entry_heap[base_or_z]
+            readback[p] = ("arr", ho.arr.decl().name(), [s_.decl().name() for s_ in ho.shape], ho.ndim)
+    return readback
 
 
 def run_contracts(reg, contracts, lemmas, want_models=True):
@@ -117,13 +156,7 @@ def run_contracts(reg, contracts, lemmas, want_models=True):
             continue
         functions.append({"function": c.key, "source_sha256_16": sha, "vcs": len(vcs), "return_paths": eng.nreturns})
         axioms = [lemma_as_axiom(reg, nm) for nm in reg.uses.get(c.key, [])]
-        readback = {}
-        for p, (k_, base_or_z, ty) in eng.inputs.items():
-            if k_ == "scalar":
-                readback[p] = ("scalar", base_or_z.decl().name())
-            else:
-                ho = eng.entry_heap[base_or_z]
-                readback[p] = ("arr", ho.arr.decl().name(), [s.decl().name() for s in ho.shape], ho.ndim)
+        readback = _readback(eng)
         # canary: the precondition must be satisfiable
         cover_goal = z3.BoolVal(False)
         for vc in vcs + [sx.VC("%s.cover.requires" % c.name, "cover", eng.requires_terms, cover_goal, c.key)]:
@@ -195,6 +228,18 @@ def run_property(prop, tier, seed):
         externals.USED.clear()
         meta, res, functions, undecided_fn, wall = run_contracts(reg, contracts, lemmas)
         obl = summarise(meta, res)
+        # second pass (refutation mode) for obligations left open
+        open_by_fn = {}
+        for name, o in obl.items():
+            if o["status"] == "undecided" and isinstance(o["owner"], dsl.Contract):
+                open_by_fn.setdefault(o["owner"].key, set()).add(name)
+        for key, names in open_by_fn.items():
+            found = refute_small_scope(reg, reg.by_key[key], names)
+            for name, info in found.items():
+                obl[name]["status"] = "refuted"
+                obl[name]["model"] = info["model"]
+                obl[name]["line"] = info["line"]
+                obl[name]["solver"].add("z3-small-scope(K=%d)" % SMALL_K)
         out["functions"] = functions
         out["solver_time_s"] = {"wall": round(wall, 2),
                                 "z3": round(sum(r.get("z3_s", 0) for r in res), 2),
